@@ -76,25 +76,34 @@ class DescriptionCache:
         if location is None:
             return None
 
-        cache_dict_or_evt = self._cache_dict.get(location, _UNDEF)
-        if isinstance(cache_dict_or_evt, asyncio.Event):
-            await cache_dict_or_evt.wait()
-        elif cache_dict_or_evt is _UNDEF:
+        while True:
+            cache_dict_or_evt = self._cache_dict.get(location, _UNDEF)
+            if isinstance(cache_dict_or_evt, asyncio.Event):
+                await cache_dict_or_evt.wait()
+                # Check again: the download may have been cancelled,
+                # or the description uncached in the meantime.
+                continue
+            if cache_dict_or_evt is not _UNDEF:
+                return cast(DescriptionType, cache_dict_or_evt)
+
             evt = self._cache_dict[location] = asyncio.Event()
             try:
-                description_xml = await self.async_get_description_xml(location)
-            except UpnpResponseError:
-                self._cache_dict[location] = None
-            else:
-                if description_xml:
-                    self._cache_dict[location] = _description_xml_to_dict(
-                        description_xml
-                    )
-                else:
+                try:
+                    description_xml = await self.async_get_description_xml(location)
+                except UpnpResponseError:
                     self._cache_dict[location] = None
-            evt.set()
-
-        return cast(DescriptionType, self._cache_dict[location])
+                else:
+                    if description_xml:
+                        self._cache_dict[location] = _description_xml_to_dict(
+                            description_xml
+                        )
+                    else:
+                        self._cache_dict[location] = None
+            finally:
+                if self._cache_dict.get(location) is evt:
+                    # Cancelled or failed, do not leave the marker behind.
+                    del self._cache_dict[location]
+                evt.set()
 
     def uncache_description(self, location: str) -> None:
         """Uncache a description."""
